@@ -676,7 +676,7 @@ func c03Gen(t *rapid.T) c03Case {
 	for gi := 0; gi < ng; gi++ {
 		g := c03Group{First: first, Nchan: rapid.IntRange(1, 8).Draw(t, "nchan"), Int32: rapid.IntRange(0, 3).Draw(t, "int32") == 0,
 			Producer: rapid.IntRange(0, c.NProducers-1).Draw(t, "producer")}
-		g.Base = rapid.SampledFrom([]uint32{1, 2, 1000, 70000, 1 << 31}).Draw(t, "base") + uint32(rapid.IntRange(0, 50).Draw(t, "baseoff"))
+		g.Base = rapid.SampledFrom([]uint32{1, 2, 1000, 70000, 1 << 31, 0xffffffc0, 0xfffffff0, 0xffffff00}).Draw(t, "base") + uint32(rapid.IntRange(0, 50).Draw(t, "baseoff"))
 		if g.Nchan%2 == 0 && rapid.IntRange(0, 4).Draw(t, "twod") == 0 {
 			g.TwoD = true
 		}
